@@ -71,3 +71,13 @@ P('C04', 'proof',
   'ascending. S6 is_open_at_datetime evaluated as a decision table over weekday 0..6 x time of day (boundary grid; every minute in the '
   'thorough tier) equals weekday<=4 and 14:30<=t<21:00. Known blemish recorded under C15 (a refused fill loses the drained orders).')
 TECHNIQUE['C04'] = 'static analysis: guard-dominance and exactly-once path rules on symbolic summaries, who-may-call tables, exhaustive decision table of the hours predicate'
+
+P('C05', 'other',
+  'Static rules over per-path symbolic summaries of SimulatedBroker._execute_order, the data handler and the fee models. Decided: S1 the '
+  'quote is looked up once for the ordered asset at the update time, the Transaction is stamped with the broker clock, which update() sets '
+  'to its argument first; S2 a buy takes component [1] (ask), a sell component [0] (bid) of the handler\'s quote; the handler\'s pair is '
+  '(bid getter, ask getter) or the documented (bid, bid) shortcut, accepted only while the data source builds Ask identical to Bid; mid = '
+  '(bid+ask)/2; S3 consideration = round(price*quantity) with no digits, fee model called once with (asset, quantity, consideration, broker), '
+  'its result is the commission unmodified; S4 PercentFeeModel = (commission_pct + tax_pct)*|consideration| on its single path (hence '
+  'non-negative for non-negative rates and sign-independent), ZeroFeeModel = 0, rates are the constructor arguments. Float rounding is not decided.')
+TECHNIQUE['C05'] = 'static analysis: value-flow / provenance of price, time stamp and commission through symbolic path summaries; canonical fee formulas'
